@@ -44,5 +44,6 @@ int mode_sim(int argc, char **argv);
 int mode_file(int argc, char **argv);
 int mode_util(int argc, char **argv);
 int mode_chars(int argc, char **argv);
+int mode_mem(int argc, char **argv);
 
 #endif
